@@ -69,7 +69,14 @@ def run(job):
         src = open(p, encoding="utf8").read()
         if src.count(old) != 1:
             return label, None, "anchor text gone after the refactoring (skipped)"
-        open(p, "w", encoding="utf8").write(src.replace(old, new))
+        src2 = src.replace(old, new)
+        if fname.endswith(".py"):
+            try:
+                compile(src2, p, "exec")
+            except SyntaxError:
+                # e.g. the anchor line matched inside a block the refactoring added (deeper indentation): a mutant must compile
+                return label, None, "the mutant does not parse on top of this refactoring (skipped)"
+        open(p, "w", encoding="utf8").write(src2)
         out = os.path.join(tmp, "out")
         os.makedirs(out)
         env = dict(os.environ, YARL_REPO=os.path.join(tmp, "repo"), YARL_VERIF_OUT=out)
